@@ -102,6 +102,7 @@ func genDispatch(c *ctx) string {
 	b.WriteString("def dirArgWrapperAccepted : Bool := " + dirArgTypeTest(c) + "\n")
 	b.WriteString("def descRaw : Bool := " + descForm(c) + "\n")
 	b.WriteString("def assureOnce : Bool := " + assureSchemaForm(c) + "\n")
+	b.WriteString("def inputExtendMapOrder : Bool := " + inputExtendForm(c) + "\n")
 	tod, ter := toolForms(c)
 	b.WriteString("def toolOmitsDirectives : Bool := " + tod + "\n")
 	b.WriteString("def toolEmbedRaw : Bool := " + ter + "\n")
@@ -352,6 +353,8 @@ func objectArmForm(c *ctx) string {
 				res = "false"
 			case `it, _ := at.(*Input) ; if nn, _ := at.(*NonNull); nn != nil { it, _ = nn.Base.(*Input) } ; if it != nil { cp := make(map[string]interface{}, len(tv)) for k, v := range tv { var vt Type if f := it.fields.get(k); f != nil { vt = f.Type } cp[k], ea2 = root.replaceArgVars(vars, v, vt) ea = append(ea, ea2...) } if val, err = it.CoerceIn(cp); err != nil { ea = append(ea, resWarnp(nil, "%s", err)) } } else if ic, _ := at.(InCoercer); ic != nil { ` + coerce + ` }`:
 				res = "false" // and the literal is copied (D25 repaired: see argsInPlace)
+			case `it, _ := at.(*Input) ; if nn, _ := at.(*NonNull); nn != nil { it, _ = nn.Base.(*Input) } ; if it != nil { cp := make(map[string]interface{}, len(tv)) keys := make([]string, 0, len(tv)) for k := range tv { keys = append(keys, k) } sort.Strings(keys) for _, k := range keys { v := tv[k] var vt Type if f := it.fields.get(k); f != nil { vt = f.Type } cp[k], ea2 = root.replaceArgVars(vars, v, vt) ea = append(ea, ea2...) } if val, err = it.CoerceIn(cp); err != nil { ea = append(ea, resWarnp(nil, "%s", err)) } } else if ic, _ := at.(InCoercer); ic != nil { ` + coerce + ` }`:
+				res = "false" // … and the members are visited by name (D77: errors in a stable order)
 			}
 		}
 		return false
@@ -556,4 +559,25 @@ func assureSchemaForm(c *ctx) string {
 		return "false"
 	}
 	return unknown("assureSchema form", c.pos(fd))
+}
+
+// inputExtendForm reads (*Input).Extend: are the fields of the extension added in the order of the Go map
+// that indexes them (D76: the member order of an extended input type differs from run to run) or in the order
+// of the list, as the other kinds do?  Whole-body match.
+func inputExtendForm(c *ctx) string {
+	fd := c.funcs["Input.Extend"]
+	if fd == nil {
+		return unknown("Input.Extend", "input.go")
+	}
+	t := regexp.MustCompile(`(?m)//.*$`).ReplaceAllString(c.src(fd.Body), "")
+	body := regexp.MustCompile(`\s+`).ReplaceAllString(t, " ")
+	const byMap = `{ if ix, ok := x.(*Input); ok { for k, f := range ix.fields.dict { if err := t.fields.add(f); err != nil { return fmt.Errorf("%w: field %s on %s", err, k, t.N) } } } return t.Base.Extend(x) }`
+	const byList = `{ if ix, ok := x.(*Input); ok { for _, f := range ix.fields.list { if err := t.fields.add(f); err != nil { return fmt.Errorf("%w: field %s on %s", err, f.N, t.N) } } } return t.Base.Extend(x) }`
+	switch body {
+	case byMap:
+		return "true"
+	case byList:
+		return "false"
+	}
+	return unknown("Input.Extend body", c.pos(fd))
 }
